@@ -913,9 +913,12 @@ func runQueued(limit uint32, seed int64, st *stats) *conn {
 // the client - legally - opens the next stream, without any round trip in between. Added after seeded
 // change C13-I; the window on the server side is small, so the script repeats it many times.
 func runSlotReuse(limit uint32, seed int64, st *stats) *conn {
-	c := newConn(limit, true, st) // a legal script: no error reaction may appear at all
+	c := newConnOn(limit, true, st, true) // a legal script: no error reaction may appear at all; over loopback TCP
 	c.bigMode = map[uint32]bool{}
 	c.start(defaultSettings)
+	if !c.over() { // 30 responses of 4 KiB do not fit the initial connection window
+		c.exec(frameStep("connection-window", h2peer.RawFrame(8, 0, 0, []byte{0x3f, 0, 0, 0})))
+	}
 	next := uint32(3)
 	fresh := func() uint32 {
 		id := next
@@ -943,7 +946,9 @@ func runSlotReuse(limit uint32, seed int64, st *stats) *conn {
 	for round := 0; round < 30 && !c.over(); round++ {
 		c.exec(Step{Op: "release", SID: cur, NoFence: true}) // returns when END_STREAM of cur has arrived
 		nxt := fresh()
+		c.slotSID = nxt
 		c.exec(frameStep("request-right-behind-end-stream", big(nxt)))
+		c.slotSID = 0
 		st.slotReuse++
 		cur = nxt
 	}
